@@ -295,7 +295,7 @@ def write_evidence(prop, tier, seed, reg, meta, fun_results, all_obs, results, k
     float_ops, models, assumed = [], set(), set()
     for r in fun_results:
         funcs.append({"function": r.target, "source_sha256_16": r.source_hash, "status": r.status, "reason": r.reason,
-                      "paths": r.paths, "loops": r.n_loops, "obligations": len(r.obligations)})
+                      "paths": r.paths, "loops": r.n_loops, "obligations": len(r.obligations), "region": r.region})
         float_ops += ["%s:%s %s" % (f.split(":")[-1], l, o) for f, l, o in r.float_ops]
         models |= set(r.models_used)
         assumed |= set(r.assumed)
